@@ -183,8 +183,8 @@ Proof. intros []. unfold var_reps. congruence. Qed.
 
 Lemma WFstruct_heavy st st' : same_heavy st st' -> WFstruct st -> WFstruct st'.
 Proof.
-  intros Hh []. pose proof (all_reps_heavy _ _ Hh) as Ea. pose proof (var_reps_heavy _ _ Hh) as Ev.
-  destruct Hh. constructor; rewrite ?Ea, ?Ev; try congruence.
+  intros Hh [ws_keys_slots0 ws_keys_impls0 ws_iid0 ws_nodes0 ws_rids0 ws_good0 ws_vars0]. pose proof (all_reps_heavy _ _ Hh) as Ea. pose proof (var_reps_heavy _ _ Hh) as Ev.
+  destruct Hh as [sh_slots0 sh_sigs0 sh_impls0 sh_rid0 sh_nid0 sh_iid0 sh_ph0]. constructor; rewrite ?Ea, ?Ev; try congruence.
   - rewrite sh_impls0, sh_iid0. assumption.
   - rewrite sh_impls0. intros i im Hi. destruct (ws_nodes0 i im Hi) as (A & B).
     split; [exact A|].
@@ -422,7 +422,7 @@ Lemma WFstruct_mono st st' : slots st' = slots st -> impls st' = impls st ->
   next_rid st <= next_rid st' -> next_nid st <= next_nid st' -> next_iid st <= next_iid st' ->
   next_ph st <= next_ph st' -> WFstruct st -> WFstruct st'.
 Proof.
-  intros Es Ei Hr Hn Hi Hp [].
+  intros Es Ei Hr Hn Hi Hp [ws_keys_slots0 ws_keys_impls0 ws_iid0 ws_nodes0 ws_rids0 ws_good0 ws_vars0].
   assert (Ea : all_reps st' = all_reps st) by (unfold all_reps, var_reps, node_reps; congruence).
   assert (Ev : var_reps st' = var_reps st) by (unfold var_reps; congruence).
   constructor; rewrite ?Ea, ?Ev, ?Es, ?Ei; try assumption.
@@ -451,7 +451,7 @@ Lemma WFstruct_set_impl st i im im' P Y Y' Q :
   reps_upd_ok st (nodes_reps Y) (nodes_reps Y') ->
   WFstruct (set_impl i im' st).
 Proof.
-  intros [] Hi En En' Hnd Hok Hup.
+  intros [ws_keys_slots0 ws_keys_impls0 ws_iid0 ws_nodes0 ws_rids0 ws_good0 ws_vars0] Hi En En' Hnd Hok Hup.
   destruct (set_impl_nodes_reps _ _ _ _ _ _ _ _ Hi En En') as (L & R & E & E').
   destruct (reps_replace _ _ _ _ _ _ E E' eq_refl Hup ws_rids0 ws_good0) as (N1 & N2).
   constructor; try assumption.
@@ -483,7 +483,7 @@ Lemma WFstruct_set_slot st s o o' :
   reps_upd_ok st (slot_reps o) (slot_reps o') -> Forall rep_detached (slot_reps o') ->
   WFstruct (with_slots (aset s o' (slots st)) st).
 Proof.
-  intros [] Hs Hup Hdet.
+  intros [ws_keys_slots0 ws_keys_impls0 ws_iid0 ws_nodes0 ws_rids0 ws_good0 ws_vars0] Hs Hup Hdet.
   destruct (set_slot_reps st s o o' Hs) as (L & R & E & E' & L' & V & V').
   destruct (reps_replace _ _ _ _ _ _ E E' eq_refl Hup ws_rids0 ws_good0) as (N1 & N2).
   constructor; try assumption.
@@ -496,7 +496,7 @@ Lemma WFstruct_new_slot st s o' :
   reps_upd_ok st [] (slot_reps o') -> Forall rep_detached (slot_reps o') ->
   WFstruct (with_slots (aset s o' (slots st)) st).
 Proof.
-  intros [] Hs Hup Hdet.
+  intros [ws_keys_slots0 ws_keys_impls0 ws_iid0 ws_nodes0 ws_rids0 ws_good0 ws_vars0] Hs Hup Hdet.
   assert (V' : var_reps (with_slots (aset s o' (slots st)) st) = var_reps st ++ slot_reps o').
   { unfold var_reps. cbn [slots with_slots]. apply var_reps_absent. exact Hs. }
   assert (E : all_reps st = var_reps st ++ [] ++ node_reps st) by reflexivity.
@@ -512,7 +512,7 @@ Lemma WFstruct_new_impl st :
   WFstruct st ->
   WFstruct (set_impl (next_iid st) (mkImpl [] 0 false 0 false) (with_next_iid (next_iid st + 1) st)).
 Proof.
-  intros [].
+  intros [ws_keys_slots0 ws_keys_impls0 ws_iid0 ws_nodes0 ws_rids0 ws_good0 ws_vars0].
   assert (Hn : aget (next_iid st) (impls st) = None).
   { apply aget_none_iff. intro Hin. specialize (ws_iid0 _ Hin). lia. }
   assert (Ea : all_reps (set_impl (next_iid st) (mkImpl [] 0 false 0 false) (with_next_iid (next_iid st + 1) st)) = all_reps st).
@@ -532,7 +532,7 @@ Lemma WFstruct_del_impl st i im :
   WFstruct st -> aget i (impls st) = Some im -> i_nodes im = [] ->
   WFstruct (with_impls (adel i (impls st)) st).
 Proof.
-  intros [] Hi Hn.
+  intros [ws_keys_slots0 ws_keys_impls0 ws_iid0 ws_nodes0 ws_rids0 ws_good0 ws_vars0] Hi Hn.
   assert (Ea : all_reps (with_impls (adel i (impls st)) st) = all_reps st).
   { unfold all_reps, var_reps, node_reps. cbn [slots impls with_impls].
     destruct (node_reps_present _ _ _ Hi) as (A & B & H1 & _ & H3). rewrite H1, H3, Hn. reflexivity. }
@@ -594,21 +594,21 @@ Qed.
 
 Lemma Casc_trans a b c : Casc a b -> Casc b c -> Casc a c.
 Proof.
-  intros [] []. constructor; [congruence|congruence|eapply tlive_same_trans; eauto|].
-  intro i. specialize (ca_impls0 i). specialize (ca_impls1 i).
+  intros [S1 N1 T1 I1] [S2 N2 T2 I2]. constructor; [congruence|congruence|eapply tlive_same_trans; eauto|].
+  intro i. specialize (I1 i). specialize (I2 i).
   destruct (aget i (impls a)), (aget i (impls b)), (aget i (impls c)); try tauto.
   eapply impl_same_trans; eauto.
 Qed.
 
 Lemma Casc_heavy st st' : same_heavy st st' -> tlive_same st st' -> Casc st st'.
 Proof.
-  intros [] T. constructor; [assumption|assumption|assumption|].
+  intros [sh_slots0 sh_sigs0 sh_impls0 sh_rid0 sh_nid0 sh_iid0 sh_ph0] T. constructor; [assumption|assumption|assumption|].
   intro i. rewrite sh_impls0. destruct (aget i (impls st)); [apply impl_same_refl|exact I].
 Qed.
 
 Lemma Casc_impl_present st st' i : Casc st st' -> (aget i (impls st) <> None <-> aget i (impls st') <> None).
 Proof.
-  intros [] . specialize (ca_impls0 i).
+  intros [ca_sigs0 ca_iid0 ca_tracks0 ca_impls0]. specialize (ca_impls0 i).
   destruct (aget i (impls st)), (aget i (impls st')); try tauto; split; congruence.
 Qed.
 
@@ -719,7 +719,7 @@ Proof.
   - eapply sig_ok_transfer; [| | |exact Hg].
     + destruct Hh; assumption.
     + exact Ht.
-    + destruct Hh. rewrite sh_impls0. auto.
+    + destruct Hh as [sh_slots0 sh_sigs0 sh_impls0 sh_rid0 sh_nid0 sh_iid0 sh_ph0]. rewrite sh_impls0. auto.
   - exact Hw.
 Qed.
 
@@ -916,7 +916,7 @@ Lemma Casc_of_set_impl st st' i im im' :
   aget i (impls st) = Some im -> impl_same im im' ->
   same_heavy (set_impl i im' st) st' -> tlive_same st st' -> Casc st st'.
 Proof.
-  intros Hi Hsame [] T. cbn [set_impl slots sigs next_rid next_nid next_iid next_ph with_impls] in *.
+  intros Hi Hsame [sh_slots0 sh_sigs0 sh_impls0 sh_rid0 sh_nid0 sh_iid0 sh_ph0] T. cbn [set_impl slots sigs next_rid next_nid next_iid next_ph with_impls] in *.
   constructor; [assumption|assumption|assumption|].
   intro j. rewrite sh_impls0, aget_set_impl. destruct (N.eqb_spec j i) as [->|Hn].
   - rewrite Hi. exact Hsame.
@@ -925,7 +925,7 @@ Qed.
 
 Lemma WFstruct_keys_ok st : WFstruct st -> keys_ok st.
 Proof.
-  intros []. split; [assumption|]. split; [assumption|]. intros i im H. exact (proj1 (ws_nodes0 i im H)).
+  intros [ws_keys_slots0 ws_keys_impls0 ws_iid0 ws_nodes0 ws_rids0 ws_good0 ws_vars0]. split; [assumption|]. split; [assumption|]. intros i im H. exact (proj1 (ws_nodes0 i im H)).
 Qed.
 
 (* "nothing else moved": slot bases at other locations are untouched *)
@@ -937,7 +937,7 @@ Lemma others_same_refl l st : others_same l st st.
 Proof. split; intros; reflexivity. Qed.
 
 Lemma get_sb_heavy st st' l : same_heavy st st' -> get_sb l st' = get_sb l st.
-Proof. intros []. destruct l; unfold get_sb; rewrite ?sh_slots0, ?sh_impls0; reflexivity. Qed.
+Proof. intros [sh_slots0 sh_sigs0 sh_impls0 sh_rid0 sh_nid0 sh_iid0 sh_ph0]. destruct l; unfold get_sb; rewrite ?sh_slots0, ?sh_impls0; reflexivity. Qed.
 
 Lemma get_sb_set_impl_var i im' st s : get_sb (LVar s) (set_impl i im' st) = get_sb (LVar s) st.
 Proof. reflexivity. Qed.
@@ -961,7 +961,7 @@ Proof.
         rewrite get_sb_set_impl_node. destruct (N.eqb_spec j i) as [->|Hne]; [|reflexivity].
         cbn [i_nodes with_nodes]. rewrite find_node_del_other by congruence.
         rewrite get_sb_node, Hi. reflexivity.
-      * intros j Hj. destruct Hh. rewrite sh_impls0, aget_set_impl.
+      * intros j Hj. destruct Hh as [sh_slots0 sh_sigs0 sh_impls0 sh_rid0 sh_nid0 sh_iid0 sh_ph0]. rewrite sh_impls0, aget_set_impl.
         destruct (N.eqb_spec j i) as [->|Hne]; [exfalso; exact (Hj n eq_refl)|reflexivity].
   - eexists. split; [reflexivity|]. split; [eapply WFc_set_impl_flags; eauto|]. split.
     + eapply Casc_of_set_impl; eauto using same_heavy_refl.
@@ -1219,7 +1219,7 @@ Proof.
     - eapply sig_ok_set_track; eauto.
     - eapply watch_ok_ex_transfer; [| | |exact Hw]; reflexivity. }
   assert (Hcasc : Casc st (set_track t (mkTr None false) st2)).
-  { destruct C2. constructor; [exact ca_sigs0|exact ca_iid0| |exact ca_impls0].
+  { destruct C2 as [ca_sigs0 ca_iid0 ca_tracks0 ca_impls0]. constructor; [exact ca_sigs0|exact ca_iid0| |exact ca_impls0].
     intro t'. destruct (ca_tracks0 t') as (A & B & _). split; [|split].
     - unfold set_track. cbn [tracks with_tracks]. rewrite aget_aset. destruct (N.eqb_spec t' t) as [->|Hn].
         * unfold live_track in Hl. destruct (aget t (tracks st)) as [[x|]|]; try discriminate. split; discriminate.
@@ -1349,7 +1349,7 @@ Proof. intros [] T. constructor; try assumption. lia. Qed.
 
 Lemma Grow_Casc st st' : Grow st st' -> Casc st st'.
 Proof.
-  intros []. constructor; [assumption|assumption|assumption|]. intro i. rewrite gr_impls0.
+  intros [gr_sigs0 gr_impls0 gr_nid0 gr_iid0 gr_ph0 gr_rid0 gr_tracks0]. constructor; [assumption|assumption|assumption|]. intro i. rewrite gr_impls0.
   destruct (aget i (impls st)); [apply impl_same_refl|exact I].
 Qed.
 
@@ -1385,7 +1385,7 @@ Proof.
   - constructor.
     + eapply WFstruct_heavy; eauto.
     + rewrite Ea. exact R2.
-    + eapply sig_ok_transfer; [| | |exact Hg]; [destruct H2; assumption| |destruct H2; rewrite sh_impls0; auto].
+    + eapply sig_ok_transfer; [| | |exact Hg]; [destruct H2; assumption| |destruct H2 as [sh_slots0 sh_sigs0 sh_impls0 sh_rid0 sh_nid0 sh_iid0 sh_ph0]; rewrite sh_impls0; auto].
       eapply tlive_same_trans; [|exact T2]. apply tlive_tracks_eq. reflexivity.
     + eapply watch_ok_ex_transfer; [| | |exact Hw]; [destruct H2; assumption|rewrite C2; reflexivity|rewrite K2; reflexivity].
     + cbn [sb_reps sb_rep optl]. constructor; [|constructor]. split; [|split].
@@ -1533,7 +1533,7 @@ Proof.
     + eapply WFstruct_set_sb; eauto.
       * cbn [sb_reps sb_rep optl]. split; [constructor; [intros []|constructor]|]. split.
         -- constructor; [|constructor]. unfold rep_good in *. rewrite Hid, Hval, Hfn.
-           destruct H2. rewrite sh_rid0. exact Pg.
+           destruct H2 as [sh_slots0 sh_sigs0 sh_impls0 sh_rid0 sh_nid0 sh_iid0 sh_ph0]. rewrite sh_rid0. exact Pg.
         -- intros r' [<-|[]]. right. rewrite Ea2, Hid. exact Pf.
       * cbn [sb_reps sb_rep optl]. constructor; [exact Hdet|constructor].
     + eapply regs_tracks_eq; [apply (set_sb_other_fields (LVar d) _ st2)|].
@@ -1546,7 +1546,7 @@ Proof.
       rewrite !dem_of_app, !dem_app in *. cbn [sb_reps sb_rep optl dem_of map dem].
       unfold refs_of. rewrite Hid, Hfn. lia.
     + apply sig_ok_set_sb. eapply sig_ok_transfer; [| | |exact Hg]; [destruct H2; assumption|exact T2|].
-      destruct H2. rewrite sh_impls0. auto.
+      destruct H2 as [sh_slots0 sh_sigs0 sh_impls0 sh_rid0 sh_nid0 sh_iid0 sh_ph0]. rewrite sh_impls0. auto.
     + eapply watch_set_sb_ex; eauto. intros r Hr0. exists r''. split; [reflexivity|].
       destruct (var_rep_detached _ _ _ _ Hs Hget Hr0) as (_ & Ow). rewrite Ow. intros x [].
   - eapply Grow_trans; [apply Grow_heavy; eauto|apply Grow_set_sb_var].
@@ -1821,7 +1821,7 @@ Proof.
   split; [eapply WFstruct_heavy; eauto|]. split; [|split].
   - rewrite (all_reps_heavy _ _ Hh). eapply regs_tracks_eq; [apply set_connptr_tracks|exact B].
   - eapply sig_ok_transfer; [| | |exact C]; [destruct Hh; assumption|apply tlive_tracks_eq; apply set_connptr_tracks|].
-    destruct Hh. rewrite sh_impls0. auto.
+    destruct Hh as [sh_slots0 sh_sigs0 sh_impls0 sh_rid0 sh_nid0 sh_iid0 sh_ph0]. rewrite sh_impls0. auto.
   - intros w' i n Hp. rewrite get_set_connptr in Hp. destruct (wref_eqb_spec w' w) as [->|Hn].
     + left. left. reflexivity.
     + destruct (D w' i n Hp) as [X|X]; [left; right; exact X|right].
@@ -1959,7 +1959,7 @@ Proof.
 Qed.
 
 Lemma FrameI_heavy i st st' : same_heavy st st' -> tlive_same st st' -> FrameI i st st'.
-Proof. intros [] T. constructor; [assumption|assumption|exact T|]. intros j _. rewrite sh_impls0. reflexivity. Qed.
+Proof. intros [sh_slots0 sh_sigs0 sh_impls0 sh_rid0 sh_nid0 sh_iid0 sh_ph0] T. constructor; [assumption|assumption|exact T|]. intros j _. rewrite sh_impls0. reflexivity. Qed.
 
 Lemma FrameI_set_impl i im' st : FrameI i st (set_impl i im' st).
 Proof.
@@ -2077,9 +2077,9 @@ Proof.
   destruct (clear_nodes_ok i im2 (with_nodes [] im2) st2 W2 Hi2 eq_refl) as (st4 & E4 & W4 & H4 & T4).
   rewrite E4. cbn [rbind]. eexists. split; [reflexivity|].
   assert (Hi4 : aget i (impls st4) = Some (with_nodes [] im2)).
-  { destruct H4. rewrite sh_impls0, aget_set_impl, N.eqb_refl. reflexivity. }
+  { destruct H4 as [sh_slots0 sh_sigs0 sh_impls0 sh_rid0 sh_nid0 sh_iid0 sh_ph0]. rewrite sh_impls0, aget_set_impl, N.eqb_refl. reflexivity. }
   assert (Hsig4 : sigs st4 = sigs st).
-  { destruct H4. rewrite sh_sigs0. cbn [sigs set_impl with_impls]. rewrite (fi_sigs _ _ _ F2). reflexivity. }
+  { destruct H4 as [sh_slots0 sh_sigs0 sh_impls0 sh_rid0 sh_nid0 sh_iid0 sh_ph0]. rewrite sh_sigs0. cbn [sigs set_impl with_impls]. rewrite (fi_sigs _ _ _ F2). reflexivity. }
   split; [|split].
   - destruct W4 as [Hs Hr Hg Hw]. constructor.
     + eapply WFstruct_del_impl; eauto.
@@ -2095,11 +2095,11 @@ Proof.
       * rewrite aget_adel_other by exact Hne. exact A1.
   - constructor.
     + cbn [sigs with_impls]. exact Hsig4.
-    + cbn [next_iid with_impls]. destruct H4. rewrite sh_iid0. cbn [next_iid set_impl with_impls]. exact (fi_iid _ _ _ F2).
+    + cbn [next_iid with_impls]. destruct H4 as [sh_slots0 sh_sigs0 sh_impls0 sh_rid0 sh_nid0 sh_iid0 sh_ph0]. rewrite sh_iid0. cbn [next_iid set_impl with_impls]. exact (fi_iid _ _ _ F2).
     + eapply tlive_same_trans; [apply (fi_tracks _ _ _ (FrameI_set_impl i im1 st))|].
       eapply tlive_same_trans; [exact (fi_tracks _ _ _ F2)|]. exact T4.
     + intros j Hj. cbn [impls with_impls]. rewrite aget_adel_other by exact Hj.
-      destruct H4. rewrite sh_impls0, aget_set_impl. destruct (N.eqb_spec j i); [contradiction|].
+      destruct H4 as [sh_slots0 sh_sigs0 sh_impls0 sh_rid0 sh_nid0 sh_iid0 sh_ph0]. rewrite sh_impls0, aget_set_impl. destruct (N.eqb_spec j i); [contradiction|].
       rewrite (fi_others _ _ _ F2 j Hj). unfold st1. rewrite aget_set_impl.
       destruct (N.eqb_spec j i); [contradiction|reflexivity].
   - cbn [impls with_impls]. apply aget_adel_same. exact (ws_keys_impls _ (wc_struct _ W4)).
@@ -2174,8 +2174,8 @@ Proof.
   assert (Himpls : impls st1 = impls (set_impl i (with_nodes (del_node n (i_nodes im0)) im0) st0)) by (destruct H1; assumption).
   split; [|split; [|split; [|split; [|split; [|split; [|split]]]]]].
   - constructor.
-    + destruct H1. rewrite sh_sigs0. cbn [sigs set_impl with_impls]. exact (ca_sigs _ _ C0).
-    + destruct H1. rewrite sh_iid0. cbn [next_iid set_impl with_impls]. exact (ca_iid _ _ C0).
+    + destruct H1 as [sh_slots0 sh_sigs0 sh_impls0 sh_rid0 sh_nid0 sh_iid0 sh_ph0]. rewrite sh_sigs0. cbn [sigs set_impl with_impls]. exact (ca_sigs _ _ C0).
+    + destruct H1 as [sh_slots0 sh_sigs0 sh_impls0 sh_rid0 sh_nid0 sh_iid0 sh_ph0]. rewrite sh_iid0. cbn [next_iid set_impl with_impls]. exact (ca_iid _ _ C0).
     + eapply tlive_same_trans; [exact (ca_tracks _ _ C0)|exact T1].
     + intros j Hj. rewrite Himpls, aget_set_impl. destruct (N.eqb_spec j i); [contradiction|].
       apply I0. intros n' X. inversion X. congruence.
@@ -2388,7 +2388,7 @@ Proof.
     set (imc := with_nodes [] (with_deferred (i_deferred im) im2)).
     destruct (clear_nodes_ok i im2 imc st2 W2 Hi2 eq_refl) as (st3 & E3 & W3 & H3 & T3).
     rewrite E3. cbn [rbind].
-    assert (Hi3 : aget i (impls st3) = Some imc) by (destruct H3; rewrite sh_impls0, aget_set_impl, N.eqb_refl; reflexivity).
+    assert (Hi3 : aget i (impls st3) = Some imc) by (destruct H3 as [sh_slots0 sh_sigs0 sh_impls0 sh_rid0 sh_nid0 sh_iid0 sh_ph0]; rewrite sh_impls0, aget_set_impl, N.eqb_refl; reflexivity).
     destruct (unreference_exec_ok i imc st3 W3 Hi3) as (st' & E' & W' & F' & P' & _).
     exists st'. split; [exact E'|]. split; [exact W'|].
     assert (Est' : st' = set_impl i (with_exec (i_exec imc - 1) imc) st3).
